@@ -2,6 +2,7 @@
   Props.C13 — series IDs are unique, stable and never reused (tsdb series file).
 -/
 import Influx.Lemmas.C13Torn
+import Influx.Lemmas.C13Sim3
 import Influx.Model.C13
 import Influx.Spec.C13
 
@@ -39,5 +40,144 @@ theorem C13_crash_segment (es : List Entry) (e : Entry) (hch : Chain hdrSize (es
 example : Chain hdrSize ([⟨1, 1, [3, 0, 1, 97], 5⟩, ⟨2, 1, [], 18⟩] ++ [⟨1, 9, [3, 0, 1, 98], 27⟩]) := by
   refine ⟨rfl, ⟨by decide, Or.inl ⟨rfl, [0, 1, 97], rfl, by decide, by decide⟩⟩, rfl,
     ⟨by decide, Or.inr ⟨rfl, rfl⟩⟩, rfl, ⟨by decide, Or.inl ⟨rfl, [0, 1, 98], rfl, by decide, by decide⟩⟩, trivial⟩
+
+/-! ## One partition: what the index lookups mean (in memory and in the compacted index file)
+
+`PInv2 p es`: the partition `p` holds exactly the entries `es` in its segment; ids of insert
+entries grow, are ≡ pid+1 (mod 8) and below `seq`; `seq` is what `openSegments` would
+recompute; a key is re-created only after its previous series was tombstoned; the in-memory
+maps are the replay of what lies behind the index file's `maxOffset`; the index file holds the
+insert entries that were live when it was written. -/
+
+/-- `FindIDBySeriesKey` returns the id of THE live series with that key (across the in-memory
+    map and the on-disk map of a compacted index), and `SeriesKey` of that id is the key. -/
+theorem partition_lookup (p : Part) (es : List Entry) (h : PInv2 p es) (e : Entry) (hl : Live es e) :
+    p.findID e.key = e.id ∧ p.seriesKey e.id = some e.key ∧ p.isDeleted e.id = false :=
+  ⟨findID_live h.toPInv hl, seriesKey_live h.toPInv hl, live_not_deleted h.toPInv hl⟩
+
+/-- a key without a live series is not found -/
+theorem partition_lookup_absent (p : Part) (es : List Entry) (h : PInv2 p es) (key : Bytes)
+    (hno : ∀ e, Live es e → e.key ≠ key) : p.findID key = 0 :=
+  findID_none h.toPInv key hno
+
+/-- **create is idempotent** and hands out a fresh id otherwise: an existing live series keeps
+    its id and nothing is written; a new one gets `seq`, which exceeds every id ever written
+    to the partition (deleted ones included), and `seq` advances by 8. -/
+theorem partition_create (p : Part) (es : List Entry) (h : PInv2 p es) (key : Bytes) (hk : shortKey key)
+    (hseq : p.seq < 2 ^ 64) :
+    (∀ e, Live es e → e.key = key → p.createOne key = (p, e.id)) ∧
+    ((∀ e, Live es e → e.key ≠ key) →
+      (p.createOne key).2 = p.seq ∧ (∀ e ∈ es, e.flag = insertFlag → e.id < p.seq) ∧
+      PInv2 (p.createOne key).1 (es ++ [newEntry p key]) ∧ (p.createOne key).1.seq = p.seq + 8) := by
+  refine ⟨fun e hl hke => by rw [← hke]; exact createOne_live h hl, fun hno => ?_⟩
+  obtain ⟨h1, h2, h3, _, _⟩ := createOne_new h key hk hno hseq
+  exact ⟨h1, fun e he hf => (h.idPos e he hf).2.1, h2, h3⟩
+
+/-- **reopen and index compaction change nothing**: same entries, same `seq`, invariant kept
+    (hence, by `partition_lookup`, the same answers to every lookup). -/
+theorem partition_reopen_compact (p : Part) (es : List Entry) (h : PInv2 p es) (thr : Nat) :
+    (PInv2 (p.load thr) es ∧ (p.load thr).seq = p.seq) ∧ (PInv2 p.compact es ∧ p.compact.seq = p.seq) :=
+  ⟨⟨(load_inv h thr).1, (load_inv h thr).2.1⟩, ⟨(compact_inv h).1, (compact_inv h).2.1⟩⟩
+
+/-! ## The statement on the model's own traces -/
+
+theorem fresh_inv (i : Nat) : PInv2 (Part.fresh i) [] := by
+  have hp : PInv (Part.fresh i) [] :=
+    { file := rfl
+      chain := trivial
+      idPos := fun e he => by cases he
+      idInc := List.Pairwise.nil
+      seqMod := rfl
+      keys := List.Pairwise.nil
+      tombAfter := fun t ht => by cases ht
+      memKeyID := rfl
+      memIDOff := rfl
+      tomb := rfl
+      maxOffset := rfl
+      disk := fun d hd => by cases hd }
+  refine ⟨hp, ?_, ?_⟩
+  · simp [Part.fresh, nextSeq, SF.maxSeriesID]
+  · simp [Part.fresh, Part.bound, hdr]
+
+theorem init_rel (pf : Bytes → Nat) : Rel pf (fun _ => []) init {} := by
+  refine ⟨⟨by simp [init, partN], ?_, fun _ _ => rfl⟩, ⟨?_, ?_, rfl, rfl, rfl, rfl⟩, ?_⟩
+  · intro i p hp
+    simp only [init] at hp
+    rw [List.getElem?_map] at hp
+    cases hr : (List.range partN)[i]? with
+    | none => simp [hr] at hp
+    | some j =>
+      simp only [hr, Option.map_some, Option.some.injEq] at hp
+      have := List.getElem?_eq_some_iff.mp hr
+      obtain ⟨hl, hj⟩ := this
+      simp at hj
+      subst hj; subst hp
+      refine ⟨rfl, fresh_inv i, ?_⟩
+      simp at hl
+      simp only [Part.fresh, partN] at hl ⊢
+      omega
+  · intro k id
+    constructor
+    · intro h; cases h
+    · rintro ⟨e, hl, _⟩; exact absurd hl.1 (by simp)
+  · intro id h; cases h
+  · intro k h; cases h
+
+theorem firstFailure_run (pf : Bytes → Nat) (ops : List Op) : ∀ (ess : Nat → List Entry) (s : State) (sp : SpecState),
+    Rel pf ess s sp → (∀ op ∈ ops, Op.WF pf op) → (∀ x ∈ run s ops, Obs.small x.2) →
+    firstFailure sp (run s ops) = none := by
+  induction ops with
+  | nil => intros; rfl
+  | cons op ops ih =>
+    intro ess s sp hR hwf hsm
+    have hsm1 : Obs.small (step s op).2 := hsm (op, (step s op).2) (by simp [run])
+    obtain ⟨ess', hnone, hR'⟩ := step_sim pf ess s sp op hR (hwf op (by simp)) hsm1
+    simp only [run, firstFailure]
+    cases hc : check sp op (step s op).2 with
+    | mk sp' c =>
+      rw [hc] at hnone hR'
+      simp only at hnone hR'
+      subst hnone
+      exact ih ess' _ _ hR' (fun o ho => hwf o (by simp [ho])) (fun x hx => hsm x (by simp [run, hx]))
+
+/-- **C13 on the model (partial)**: for EVERY partition function `pf` (the hash of the key) and
+    every history of create / delete / lookup / reopen / index-compaction / threshold ops over
+    well-formed keys, the statement checker accepts the model's trace: the same id for the same
+    key every time, distinct ids for distinct keys, a never-used id after a delete, unchanged
+    across reopen and index compaction (also the background one triggered by the threshold).
+    PARTIAL: (1) crash ops are not part of this theorem — the crash clause is
+    `C13_crash_segment` at the segment level and, for keys that are zero-padded prefixes of
+    other keys, is FALSE (`C13_crash_full_fails`); (2) the offline segment compaction is
+    excluded (known finding: it makes ids reusable); (3) keys have a one-byte length prefix;
+    (4) ids stay below 2^63. -/
+theorem C13_holdsOn_partial (pf : Bytes → Nat) (ops : List Op) (hwf : ∀ op ∈ ops, Op.WF pf op)
+    (hsm : ∀ x ∈ run init ops, Obs.small x.2) : holdsOn (run init ops) = true := by
+  simp [holdsOn, firstFailure_run pf ops _ init {} (init_rel pf) hwf hsm]
+
+-- the hypotheses are met by a non-trivial history
+example : ∀ op ∈ [Op.create [([3, 0, 1, 97], 2)], .delKey ([3, 0, 1, 97], 2), .reopen, .compact 2,
+    .create [([3, 0, 1, 97], 2)], .allIDs], Op.WF (fun _ => 2) op := by
+  intro op h; simp at h
+  have hk : KeyOK (fun _ => 2) ([3, 0, 1, 97], 2) := ⟨rfl, by decide, [0, 1, 97], rfl, by decide, by decide⟩
+  rcases h with rfl | rfl | rfl | rfl | rfl | rfl <;> simp [Op.WF] <;> exact hk
+
+/-! ## Where the full statement fails (both reproduced on the real code by the check) -/
+
+/-- **The crash clause at full strength is false**: a series whose name ends in NUL exists
+    (key `06 0003 6e3000 00`, id 2, partition 1); a create of `n0p` in the same partition is torn
+    after 14 bytes (flag, id, length prefix and `00 03 6e 30` on disk, the rest zero): the
+    recovered entry carries the bytes of the FIRST key with the new id 10, and `SeriesID` of the
+    acknowledged series changes from 2 to 10.  The statement checker rejects the model's trace
+    (and the real code's: known finding `id-not-stable-after-tear-in-key`). -/
+theorem C13_crash_full_fails :
+    holdsOn (run init [.create [([6, 0, 3, 110, 48, 0, 0], 1)], .torn ([6, 0, 3, 110, 48, 112, 0], 1) 14,
+      .id ([6, 0, 3, 110, 48, 0, 0], 1)]) = false := by decide
+
+/-- **Segment compaction makes ids reusable**: create (id 1), delete, compact the segments as
+    `build-tsi --compact-series-file` does, create another key of the partition: id 1 again
+    (known finding `id-reused-after-segment-compaction`). -/
+theorem C13_segcompact_reuses_id :
+    holdsOn (run init [.create [([3, 0, 1, 97], 0)], .delKey ([3, 0, 1, 97], 0), .segCompact,
+      .create [([3, 0, 1, 98], 0)]]) = false := by decide
 
 end Influx.Props.C13
